@@ -51,6 +51,12 @@ func sceneGenesis(o ReqOpts) {
 	// provider 0 also serves a second service (two bindings of one provider, one owner)
 	Define(k, ctx, Svc+"x")
 	bx := Binding(k, ctx, "bx", Svc+"x", s.Provs[0], s.Owner, 0, 0, false)
+	depAcc0 := s.DepAcc0.Add(bx.Deposit)
+	vf.SetModuleBalance(types.DepositAccName, depAcc0)
+	supply0 := s.Supply0.Add(bx.Deposit)
+	vf.SetSupply(supply0)
+	balOwner := vf.Amount("balOwner")
+	vf.SetBalance(s.Owner, balOwner)
 	hasWA := vf.Bool("hasWithdrawAddr")
 	wa := vf.Addr("withdrawAddr", 20)
 	if hasWA {
@@ -103,6 +109,12 @@ func sceneGenesis(o ReqOpts) {
 		earned = earned.Add(s.Earned0[i])
 		chk("C19 C18 C13", vf.Balance(s.Provs[i]).Sub(balP[i]).Equal(s.Earned0[i]), "earnings-returned-to-their-provider")
 	}
+	// deposits are not part of what a zero-height export hands back: they stay in custody, recorded as before
+	chk("C03 C19", vf.All(vf.ModuleBalance(types.DepositAccName).Equal(depAcc0), vf.Balance(s.Owner).Equal(balOwner), vf.Supply().Equal(supply0)), "zero-height-preparation-leaves-deposits-in-custody")
+	for i := 0; i < s.N; i++ {
+		b, _ := k.GetServiceBinding(ctx, Svc, s.Provs[i])
+		chk("C03 C04 C14 C19", vf.All(b.Deposit.AmountOf(Denom).Equal(s.Binds[i].Deposit), b.Available == s.Binds[i].Available, b.DisabledTime.Equal(s.Binds[i].DisabledTime)), "zero-height-preparation-leaves-bindings-alone")
+	}
 	chk("C19", vf.Balance(s.Consumer).Sub(s.BalC0).Equal(refund), "pending-fees-returned-to-consumer")
 	chk("C19", vf.Balance(c2).Sub(balC2).Equal(fee2), "pending-fee-of-every-context-returned")
 	chk("C19 C01", esc0.Sub(vf.ModuleBalance(types.RequestAccName)).Equal(refund.Add(earned).Add(fee2)), "escrow-emptied-of-all-obligations")
@@ -111,6 +123,7 @@ func sceneGenesis(o ReqOpts) {
 
 	gs := service.ExportGenesis(ctx, k)
 	chk("C19", types.ValidateGenesis(*gs) == nil, "exported-genesis-validates")
+	chk("C19 C17", sameParams(gs.Params, vf.Params(ctx)), "export-carries-the-stored-parameters")
 	chk("C19", vf.All(len(gs.Definitions) == 2, len(gs.Bindings) == s.N+1, len(gs.RequestContexts) == 2), "export-lists-all-records")
 	nWA := 0
 	if hasWA {
